@@ -3,6 +3,7 @@ import Bec2Verif.Lemmas.Sqrt
 import Bec2Verif.Lemmas.P256Curve
 import Bec2Verif.Lemmas.KeyDer
 import Bec2Verif.Lemmas.Oid
+import Bec2Verif.Lemmas.CurveDer
 /-!
 # C19 — key and point encodings
 
@@ -107,6 +108,30 @@ theorem p256_header_parses (raw : Bytes) (h : raw.length = 64) :
 
 /-- … and cutting `DER_HEADER_LEN` bytes off gives the raw key back -/
 theorem p256_raw_of_der (raw : Bytes) : (Gen.RAW_DER_HEADER ++ raw).drop Gen.DER_HEADER_LEN = raw := raw_of_der raw
+
+/-- **explicit curve parameters** (`Curve.to_der("explicit")` / the DER part of `Curve.from_der`): prime, `a mod p`, `b mod p`,
+the encoded base point, the order and the cofactor come back (numbers below 2^1000, a cofactor of zero is not written) -/
+theorem explicit_parameters_roundtrip (p : Nat) (a b : Int) (base : Bytes) (order : Nat) (cof : Option Nat) (d : Bytes)
+    (hp0 : 0 < p) (hp : (beBytes p).length ≤ 125) (ho : (beBytes order).length ≤ 125)
+    (hc : ∀ h, cof = some h → (beBytes h).length ≤ 125) (hb : base.length ≤ 1000)
+    (h : CurveDer.toDer p a b base order cof = .ok d) :
+    CurveDer.parse d = .ok { p := p, a := (a % (p : Int)).toNat, b := (b % (p : Int)).toNat, base := base, order := order,
+                             cofactor := CurveDer.normCof cof } :=
+  CurveDer.parse_toDer p a b base order cof d hp0 hp ho hc hb h
+
+/-- the whole decoder on the encoder's output for every named curve of the current source, generator uncompressed and
+hybrid: `Curve.from_der(curve.to_der("explicit", enc))` finds the named curve again (kernel evaluation of the model) -/
+def explicitFinds (r : Gen.CurveRec) (enc : Enc) : Bool :=
+  match toBytes { p := r.p.toNat, a := r.a, b := r.b } enc r.gx.toNat r.gy.toNat with
+  | .ok base =>
+    (match CurveDer.toDer r.p.toNat r.a r.b base r.n.toNat (some r.h.toNat) with
+     | .ok d => (match CurveDer.fromDer d with | .ok f => f.name == r.name | .error _ => false)
+     | .error _ => false)
+  | .error _ => false
+
+theorem explicit_finds_named_curves :
+    ∀ r ∈ Gen.curves, explicitFinds r .uncompressed = true ∧ explicitFinds r .hybrid = true := by
+  decide +kernel
 
 example : Der.Encodable 300 := by show (beBytes 300).length < 128; decide
 example : (beBytes 115792089210356248762697446949407573529996955224135760342422259061068512044369).length + 1 < 128 := by
